@@ -73,6 +73,11 @@ let out_bool b = if b then "b1" else "b0"
 let out_list f l = String.concat " " (("L" ^ string_of_int (List.length l)) :: List.map f l)
 let out_option f = function None -> "none" | Some v -> "some " ^ f v
 
+let rerr_str = function
+  | ErrNone -> "nil" | ErrUnexpectedEOF -> "unexpected_eof" | ErrChecksum -> "checksum"
+  | ErrEOF -> "eof" | ErrInvalidSize -> "invalid_size"
+let rstatus_str = function RNil -> "nil" | REof -> "eof" | RErr e -> rerr_str e
+
 (* ---------- operations ---------- *)
 let dispatch (op : string) (t : toks) : string =
   match op with
@@ -132,6 +137,36 @@ let dispatch (op : string) (t : toks) : string =
       out_list out_bytes (touched base op mid)
   | "pathclean" -> out_bytes (path_clean (get_bytes t))
   | "pathjoin" -> out_bytes (path_join (get_list t get_bytes))
+  | "lzcompress" ->
+      let crc = get_bool t in out_bytes (compress crc (get_bytes t))
+  | "lzread" ->
+      (* crc, source chunks, buffer sizes: one result per Read, then the Close result *)
+      let crc = get_bool t in
+      let chunks = get_list t get_bytes in
+      let sizes = get_list t get_int in
+      (match new_reader crc chunks with
+       | None -> "ctor_err"
+       | Some d ->
+           let buf = Buffer.create 256 in
+           let d = List.fold_left (fun d n ->
+             let ((got, st), d') = read d (nat_of_int n) in
+             Buffer.add_string buf (out_bytes got ^ ":" ^ rstatus_str st ^ " ");
+             d') d sizes in
+           Buffer.add_string buf ("close:" ^ rerr_str (close_reader d));
+           Buffer.contents buf)
+  | "lzreadall" ->
+      let crc = get_bool t in
+      let chunks = get_list t get_bytes in
+      let bs = get_int t in
+      let maxreads = get_int t in
+      (match new_reader crc chunks with
+       | None -> "ctor_err"
+       | Some d ->
+           let ((out, st), d') = read_all_loop (nat_of_int maxreads) d (nat_of_int bs) [] in
+           out_bytes out ^ " " ^ rstatus_str st ^ " close:" ^ rerr_str (close_reader d'))
+  | "crc" -> let p = get_bytes t in out_int (int_of_n (crc_impl p)) ^ " " ^ out_int (int_of_n (xmodem p))
+  | "canoncomp" -> let crc = get_bool t in out_bytes (Canon.compress crc (get_bytes t))
+  | "canondec" -> let crc = get_bool t in out_option out_bytes (Canon.decode crc (get_bytes t))
   | _ -> raise Not_found
 
 let () =
